@@ -16,11 +16,233 @@ def aofCovers (c : Cache) (off : Int) : Prop :=
 theorem inRange_iff {c : Cache} (h : CacheWF c) (off : Int) :
     c.inRange off = true ↔ rdbCovers c off ∨ aofCovers c off := by
   obtain ⟨be, rid, rdb, aof⟩ := c
-  obtain ⟨ha, hr, hc⟩ := h
+  obtain ⟨ha, hr, hc, _⟩ := h
   cases be <;> cases rdb <;> cases aof <;>
     simp only [Cache.inRange, Cache.range, maxInt64, rdbCovers, aofCovers] <;>
     (try rename_i x; obtain ⟨a, b⟩ := x) <;> (try rename_i y; obtain ⟨a', b'⟩ := y) <;>
     simp
   all_goals (simp only [maxInt64] at ha hr hc; omega)
+
+
+theorem latest_aof {c : Cache} {l r : Int} (h : c.aof = some (l, r)) : c.latest = r := by
+  simp [Cache.latest, h]
+
+theorem latest_rdb {c : Cache} {left size : Int} (ha : c.aof = none) (h : c.rdb = some (left, size)) :
+    c.latest = left := by
+  simp [Cache.latest, h, ha]
+
+theorem latest_none {c : Cache} (ha : c.aof = none) (h : c.rdb = none) : c.latest = -1 := by
+  simp [Cache.latest, h, ha]
+
+/-- the right end reported by `GetOffsetRange` is the newest offset -/
+theorem range_snd {c : Cache} (h : CacheWF c) (hd : c.rdb.isSome ∨ c.aof.isSome) :
+    c.range.2 = c.latest := by
+  obtain ⟨be, rid, rdb, aof⟩ := c
+  obtain ⟨ha, hr, hc, _⟩ := h
+  cases be <;> cases rdb <;> cases aof <;>
+    simp only [Cache.range, Cache.latest, maxInt64] <;>
+    (try rename_i x; obtain ⟨a, b⟩ := x) <;> (try rename_i y; obtain ⟨a', b'⟩ := y) <;>
+    simp at hd ⊢
+  all_goals (simp only [maxInt64] at ha hr hc; omega)
+
+/-! ### start point -/
+
+theorem contains_ids {a b x : Id} : [a, b].contains x = true ↔ x = a ∨ x = b := by
+  simp
+
+theorem startPoint_in {s : Source} (hs : SourceWF s) (c : Cache)
+    (h : [s.id1, s.id2].contains (c.startPoint [s.id1, s.id2]).runId = true) :
+    c.startPoint [s.id1, s.id2] = ⟨c.runId, c.latest⟩ ∧ (c.runId = s.id1 ∨ c.runId = s.id2) := by
+  have h1e := hs.id1_ne; have h1q := hs.id1_nq; have h2e := hs.id2_ne; have h2q := hs.id2_nq
+  have h1e' := Ne.symm h1e; have h1q' := Ne.symm h1q; have h2e' := Ne.symm h2e; have h2q' := Ne.symm h2q
+  rw [contains_ids] at h
+  cases hb : c.backend <;> simp only [Cache.startPoint, hb] at h ⊢ <;>
+    by_cases e1 : c.runId = s.id1 <;> by_cases e2 : c.runId = s.id2 <;>
+    by_cases hl : c.latest = 0 <;> by_cases hn : c.latest < 0 <;>
+    simp_all [realId, SP.initial, eq_comm (a := s.id1) (b := c.runId), eq_comm (a := s.id2) (b := c.runId)]
+  all_goals (split at h <;> simp_all)
+
+/-! ### admission and SendPSync -/
+
+theorem admit_cont {s : Source} {id : Id} {off : Int} {nid : Id} (h : admitPsync s id off = .cont nid) :
+    (id = s.id1 ∨ (id = s.id2 ∧ off ≤ s.switchOff + 1)) ∧ s.backlog = true ∧
+      s.backlogFirst ≤ off ∧ off ≤ s.backlogFirst + s.backlogLen := by
+  unfold admitPsync at h
+  split at h
+  · cases h
+  · split at h
+    · cases h
+    · rename_i h1 h2
+      refine ⟨?_, ?_, ?_, ?_⟩
+      · by_cases e1 : id = s.id1
+        · exact Or.inl e1
+        · by_cases e2 : id = s.id2
+          · right; refine ⟨e2, ?_⟩
+            false_or_by_contra; rename_i hgt
+            exact h1 ⟨e1, Or.inr (by omega)⟩
+          · exact absurd ⟨e1, Or.inl e2⟩ h1
+      · cases hb : s.backlog <;> simp_all
+      · false_or_by_contra; rename_i hlt; exact h2 (Or.inr (Or.inl (by omega)))
+      · false_or_by_contra; rename_i hgt; exact h2 (Or.inr (Or.inr (by omega)))
+
+theorem admit_full {s : Source} {id : Id} {off : Int} {fid : Id} {o : Int}
+    (h : admitPsync s id off = .full fid o) : fid = s.id1 ∧ o = s.masterOff := by
+  unfold admitPsync at h
+  split at h
+  · cases h; exact ⟨rfl, rfl⟩
+  · split at h
+    · cases h; exact ⟨rfl, rfl⟩
+    · cases h
+
+theorem sendPSync_reqId (s : Source) (id : Id) (off : Int) : (sendPSync s id off).reqId = id := by
+  unfold sendPSync
+  cases h : admitPsync s id (wireOf off) <;> rfl
+
+theorem sendPSync_wire (s : Source) (id : Id) (off : Int) : (sendPSync s id off).wireOff = wireOf off := by
+  unfold sendPSync
+  cases h : admitPsync s id (wireOf off) <;> rfl
+
+theorem sendPSync_full {s : Source} {id : Id} {off : Int} (h : (sendPSync s id off).full = true) :
+    (sendPSync s id off).runId = s.id1 ∧ (sendPSync s id off).off = s.masterOff ∧
+      (sendPSync s id off).rdbSize = s.snapLen := by
+  unfold sendPSync at h ⊢
+  cases heq : admitPsync s id (wireOf off) with
+  | cont nid => simp [heq] at h
+  | full fid o =>
+    have := admit_full heq
+    simp only [heq] at h ⊢
+    simp [this.1, this.2]
+
+theorem sendPSync_cont {s : Source} (hs : SourceWF s) {id : Id} {off : Int}
+    (h : (sendPSync s id off).full = false) :
+    0 ≤ off ∧ (sendPSync s id off).wireOff = off + 1 ∧ (sendPSync s id off).off = off ∧
+      (id = s.id1 ∨ (id = s.id2 ∧ off ≤ s.switchOff)) ∧ off ≤ s.masterOff ∧ s.backlogFirst ≤ off + 1 := by
+  have hf := hs.first_pos
+  unfold sendPSync at h ⊢
+  cases heq : admitPsync s id (wireOf off) with
+  | full fid o => simp [heq] at h
+  | cont nid =>
+    simp only [heq] at h ⊢
+    have ha := admit_cont heq
+    obtain ⟨h1, hb, h3, h4⟩ := ha
+    have ht := hs.tail hb
+    unfold wireOf at h1 h3 h4 ⊢
+    by_cases hoff : off ≥ 0
+    · rw [if_pos hoff] at h1 h3 h4
+      rw [if_pos hoff]
+      refine ⟨hoff, rfl, by omega, ?_, by omega, h3⟩
+      rcases h1 with h1 | ⟨h1, h2⟩
+      · exact Or.inl h1
+      · exact Or.inr ⟨h1, by omega⟩
+    · rw [if_neg hoff] at h3
+      omega
+
+/-! ### the decision table, case by case -/
+
+theorem qId_not_admitted {s : Source} (hs : SourceWF s) (off : Int) : (sendPSync s qId off).full = true := by
+  cases h : (sendPSync s qId off).full
+  · have := sendPSync_cont hs h
+    rcases this.2.2.2.1 with e | ⟨e, _⟩
+    · exact absurd e.symm hs.id1_nq
+    · exact absurd e.symm hs.id2_nq
+  · rfl
+
+/-- `IsValidOffset(cache id, off)` for a real cache id is `inRange` -/
+theorem isValid_own {c : Cache} (hq : c.runId ≠ qId) (off : Int) :
+    c.isValidOffset c.runId off = c.inRange off := by
+  simp [Cache.isValidOffset, hq]
+
+inductive DecisionCase (s : Source) (sp : SP) (c : Cache) : Decision → Prop
+  | keep1 : (sp.runId = s.id1 ∨ sp.runId = s.id2) → (c.runId = s.id1 ∨ c.runId = s.id2) →
+      c.inRange sp.offset = true →
+      DecisionCase s sp c ⟨1, sendPSync s c.runId c.latest, false, ⟨c.runId, c.latest⟩, sp.offset⟩
+  | clear (br : Nat) (loc0 : SP) : (sp.runId = s.id1 ∨ sp.runId = s.id2) →
+      DecisionCase s sp c ⟨br, sendPSync s sp.runId sp.offset, true,
+        if (sendPSync s sp.runId sp.offset).full then loc0 else ⟨(sendPSync s sp.runId sp.offset).runId, sp.offset⟩, sp.offset⟩
+  | rdb4full (left size : Int) : c.rdb = some (left, size) → (c.runId = s.id1 ∨ c.runId = s.id2) →
+      (sendPSync s c.runId c.latest).full = true →
+      DecisionCase s sp c ⟨4, sendPSync s c.runId c.latest, false, ⟨c.runId, c.latest⟩, sp.offset⟩
+  | rdb4 (left size : Int) : c.rdb = some (left, size) → (c.runId = s.id1 ∨ c.runId = s.id2) →
+      (sendPSync s c.runId c.latest).full = false →
+      DecisionCase s sp c ⟨4, { sendPSync s c.runId c.latest with rdbSize := size }, false,
+        ⟨c.runId, c.range.2⟩, left - size⟩
+  | fresh (br : Nat) (loc0 : SP) :
+      DecisionCase s sp c ⟨br, sendPSync s qId (-1), false, loc0, sp.offset⟩
+
+theorem decision_cases {s : Source} (hs : SourceWF s) (sp : SP) (c : Cache) :
+    DecisionCase s sp c (decision s sp c) := by
+  unfold decision
+  simp only []
+  by_cases hout : [s.id1, s.id2].contains sp.runId = true
+  · by_cases hloc : [s.id1, s.id2].contains (c.startPoint [s.id1, s.id2]).runId = true
+    · obtain ⟨hsp, hcid⟩ := startPoint_in hs c hloc
+      have hq : c.runId ≠ qId := by
+        rcases hcid with e | e <;> rw [e]
+        · exact hs.id1_nq
+        · exact hs.id2_nq
+      have hloc' : [s.id1, s.id2].contains c.runId = true := contains_ids.mpr hcid
+      simp only [hout, hsp, hloc', Bool.and_self, if_true, isValid_own hq]
+      by_cases hv : c.inRange sp.offset = true
+      · simp only [hv, if_true]
+        exact .keep1 (contains_ids.mp hout) hcid hv
+      · simp only [hv]
+        exact .clear 2 _ (contains_ids.mp hout)
+    · simp only [hout, hloc, Bool.and_false, Bool.false_eq_true, if_false, if_true]
+      exact .clear 3 _ (contains_ids.mp hout)
+  · simp only [hout, Bool.false_and, Bool.false_eq_true, if_false]
+    by_cases hloc : [s.id1, s.id2].contains (c.startPoint [s.id1, s.id2]).runId = true
+    · obtain ⟨hsp, hcid⟩ := startPoint_in hs c hloc
+      have hloc' : [s.id1, s.id2].contains c.runId = true := contains_ids.mpr hcid
+      by_cases hini : sp.isInitial = true
+      · simp only [hsp, hloc', hini, Bool.and_self, if_true]
+        cases hr : c.rdb with
+        | none =>
+          have : c.getRdb c.runId = (-1, -1) := by simp [Cache.getRdb, hr]
+          simp only [this]
+          simp only [ne_eq, not_true_eq_false, and_self, if_false]
+          exact .fresh 5 _
+        | some p =>
+          obtain ⟨left, size⟩ := p
+          have : c.getRdb c.runId = (left, size) := by simp [Cache.getRdb, hr]
+          simp only [this]
+          by_cases hok : left ≠ -1 ∧ size ≠ -1
+          · rw [if_pos hok]
+            have hg : c.getOffsetRange c.runId = c.range := by simp [Cache.getOffsetRange]
+            by_cases hf : (sendPSync s c.runId c.latest).full = true
+            · rw [if_pos hf]
+              exact .rdb4full left size hr hcid hf
+            · rw [if_neg hf, hg]
+              exact .rdb4 left size hr hcid (by simpa using hf)
+          · rw [if_neg hok]
+            exact .fresh 5 _
+      · simp only [hsp, hloc', hini, Bool.and_false, Bool.false_eq_true, if_false]
+        exact .fresh 6 _
+    · simp only [hloc, Bool.false_and, Bool.false_eq_true, if_false]
+      exact .fresh 6 _
+
+/-! ### DelRunId / SetRunId -/
+
+@[simp] theorem qId_ne_nil : qId ≠ [] := by decide
+@[simp] theorem nil_ne_qId : ([] : Id) ≠ qId := by decide
+
+theorem del_set_cleared {c : Cache} (h : CacheWF c) {new : Id} (hn : new ≠ []) (hq : new ≠ qId) :
+    (c.delRunId c.runId).setRunId new = ⟨c.backend, new, none, none⟩ := by
+  obtain ⟨be, rid, rdb, aof⟩ := c
+  have hl := h.label
+  cases be
+  · by_cases e : rid = [] ∨ rid = qId
+    · obtain ⟨h1, h2⟩ := hl e
+      simp only at h1 h2
+      subst h1; subst h2
+      rcases e with e | e <;> subst e <;> simp [Cache.delRunId, Cache.setRunId, hn, hq]
+    · have e1 : rid ≠ [] := fun x => e (Or.inl x)
+      have e2 : rid ≠ qId := fun x => e (Or.inr x)
+      simp [Cache.delRunId, Cache.setRunId, hn, hq, e1, e2]
+  · simp [Cache.delRunId, Cache.setRunId]
+
+theorem set_keep {c : Cache} (hr : c.runId ≠ []) {new : Id} (hn : new ≠ []) (hq : new ≠ qId) :
+    c.setRunId new = { c with runId := new } := by
+  obtain ⟨be, rid, rdb, aof⟩ := c
+  cases be <;> simp_all [Cache.setRunId]
 
 end GunYu.Psync
